@@ -11,6 +11,7 @@ import (
 	"cmp"
 	"encoding/json"
 	"fmt"
+	"math"
 	"math/rand"
 	"reflect"
 	"sort"
@@ -258,6 +259,36 @@ func refDecode(x Inst, text []byte) (ref []any, ok bool) {
 	}
 }
 
+// Serialisations that FAIL (elements encoding/json cannot represent: NaN, +Inf) made right before the serialisation under
+// test, on other containers of every kind: an error path must leave nothing behind that a later, unrelated ToJSON picks
+// up (package-level buffers, pools).  Errors are expected here; a panic is not (it lands in the event being built).
+func poisonJSON() {
+	nan, inf := math.NaN(), math.Inf(1)
+	fc := cmp.Compare[float64]
+	for _, c := range []any{
+		arraylist.New(1.5, nan), singlylinkedlist.New(1.5, inf), doublylinkedlist.New(nan, 2.5),
+		hashset.New(1.5, inf), linkedhashset.New(1.5, nan), treeset.NewWith(fc, 1.5, inf),
+		func() any { s := arraystack.New[float64](); s.Push(1.5); s.Push(nan); return s }(),
+		func() any { s := linkedliststack.New[float64](); s.Push(1.5); s.Push(inf); return s }(),
+		func() any { q := arrayqueue.New[float64](); q.Enqueue(1.5); q.Enqueue(nan); return q }(),
+		func() any { q := linkedlistqueue.New[float64](); q.Enqueue(1.5); q.Enqueue(inf); return q }(),
+		func() any { q := circularbuffer.New[float64](3); q.Enqueue(1.5); q.Enqueue(nan); return q }(),
+		func() any { q := priorityqueue.NewWith(fc); q.Enqueue(1.5); q.Enqueue(inf); return q }(),
+		func() any { h := binaryheap.NewWith(fc); h.Push(1.5); h.Push(inf); return h }(),
+		func() any { m := hashmap.New[string, float64](); m.Put("x", 1.5); m.Put("y", nan); return m }(),
+		func() any { m := treemap.New[string, float64](); m.Put("x", 1.5); m.Put("y", inf); return m }(),
+		func() any { m := linkedhashmap.New[string, float64](); m.Put("x", 1.5); m.Put("y", nan); return m }(),
+		func() any { m := hashbidimap.New[string, float64](); m.Put("x", 1.5); m.Put("y", inf); return m }(),
+		func() any { m := treebidimap.New[string, float64](); m.Put("x", 1.5); m.Put("y", inf); return m }(),
+		func() any { m := rbt.New[string, float64](); m.Put("x", 1.5); m.Put("y", nan); return m }(),
+		func() any { m := avltree.New[string, float64](); m.Put("x", 1.5); m.Put("y", inf); return m }(),
+		func() any { m := btree.New[string, float64](3); m.Put("x", 1.5); m.Put("y", nan); return m }(),
+	} {
+		c.(jsonable).ToJSON()
+		json.Marshal(c)
+	}
+}
+
 func mustJSON(v any) []byte { b, _ := json.Marshal(v); return b }
 
 func safeTo(x Inst) (b []byte, errS string, pan bool) {
@@ -353,7 +384,11 @@ func roundTrip(u Universe, path []Call) {
 	orig := contentOf(x)
 	e["orig"] = orig
 	e["size"] = sizeOf(x)
+	if pci := invoke(e, poisonJSON); pci.Panic {
+		e["panic"], e["pmsg"] = true, "failing ToJSON of another container: "+pci.PMsg
+	}
 	text, errS, pan := safeTo(x)
+	pan = pan || e["panic"] == true
 	e["err"] = errS != "" || pan
 	e["panic"] = pan
 	e["text"] = string(text)
@@ -840,7 +875,7 @@ func kvRoundTrips[K cmp.Ordered, W cmp.Ordered](j *jobCtx, tag string, keys []K,
 			e["orig"], e["size"] = content(m), m.Size()
 			var text []byte
 			var err error
-			ci := invoke(e, func() { text, err = m.ToJSON() })
+			ci := invoke(e, func() { poisonJSON(); text, err = m.ToJSON() })
 			e["err"], e["panic"], e["text"] = err != nil || ci.Panic, ci.Panic, string(text)
 			e["valid"], e["jkind"] = json.Valid(text), topKind(text)
 			mb, merr := json.Marshal(m)
@@ -1023,6 +1058,27 @@ func structRoundTrips(j *jobCtx) {
 	elemRoundTrips(j, "tm", []TM{{1, 2}, {0, 0}, {3, 10}, {1, 0}, {12, 7}, {2, 2}}, cmpTM, func(e TM) string { return fmt.Sprintf("%d/%d", e.A, e.B) })
 	a, b, c, d := &SE{1, "first"}, &SE{2, ""}, &SE{0, ""}, &SE{4, "x"}
 	elemRoundTrips(j, "pse", []*SE{a, nil, b, c, d, a}, cmpPSE, strPSE)
+	// the built-in numeric types at their extremes, booleans, strings that need escaping
+	elemRoundTrips(j, "u64", []uint64{0, 1, 1 << 63, math.MaxUint64, 1<<63 + 5, 42}, cmp.Compare[uint64], func(e uint64) string { return fmt.Sprint(e) })
+	elemRoundTrips(j, "uint", []uint{0, 7, 1 << 63, math.MaxUint, 1<<63 - 1, 42}, cmp.Compare[uint], func(e uint) string { return fmt.Sprint(e) })
+	elemRoundTrips(j, "i64", []int64{0, -1, math.MinInt64, math.MaxInt64, 1 << 53, -(1 << 53) - 1}, cmp.Compare[int64], func(e int64) string { return fmt.Sprint(e) })
+	elemRoundTrips(j, "i8", []int8{0, -1, -128, 127, 100, -100}, cmp.Compare[int8], func(e int8) string { return fmt.Sprint(e) })
+	elemRoundTrips(j, "u8", []uint8{0, 1, 255, 128, 127, 200}, cmp.Compare[uint8], func(e uint8) string { return fmt.Sprint(e) })
+	elemRoundTrips(j, "u32", []uint32{0, 1, math.MaxUint32, 1 << 31, 1<<31 - 1, 77}, cmp.Compare[uint32], func(e uint32) string { return fmt.Sprint(e) })
+	elemRoundTrips(j, "f64", []float64{0, -1.5, 1e21, 1e-7, math.MaxFloat64, math.SmallestNonzeroFloat64, 123456789.125, 1e20},
+		cmp.Compare[float64], func(e float64) string { return fmt.Sprint(e) })
+	elemRoundTrips(j, "f32", []float32{0, -1.5, 16777216, 0.1, math.MaxFloat32, 1e-7}, cmp.Compare[float32], func(e float32) string { return fmt.Sprint(e) })
+	elemRoundTrips(j, "bool", []bool{false, true}, func(a, b bool) int {
+		switch {
+		case a == b:
+			return 0
+		case !a:
+			return -1
+		}
+		return 1
+	}, func(e bool) string { return fmt.Sprint(e) })
+	elemRoundTrips(j, "estr", []string{"", "a\"b", "<tag>&", "line\nbreak", "\u2028x", "tab\there", "\\back", "é€😀", "null", "[1,2]"}, cmp.Compare[string],
+		func(e string) string { return e })
 }
 
 func elemRoundTrips[E comparable](j *jobCtx, tag string, pool []E, cmp func(a, b E) int, str func(E) string) {
@@ -1054,7 +1110,7 @@ func elemRoundTrips[E comparable](j *jobCtx, tag string, pool []E, cmp func(a, b
 			e["orig"], e["size"] = strs(orig), len(orig)
 			var text []byte
 			var err error
-			ci := invoke(e, func() { text, err = c.(jsonable).ToJSON() })
+			ci := invoke(e, func() { poisonJSON(); text, err = c.(jsonable).ToJSON() })
 			e["err"], e["panic"], e["text"] = err != nil || ci.Panic, ci.Panic, string(text)
 			e["valid"], e["jkind"] = json.Valid(text), topKind(text)
 			mb, merr := json.Marshal(c)
@@ -1062,6 +1118,12 @@ func elemRoundTrips[E comparable](j *jobCtx, tag string, pool []E, cmp func(a, b
 			if !eq && merr == nil && disc == "unordered" {
 				var x1, x2 []any
 				eq = json.Unmarshal(mb, &x1) == nil && json.Unmarshal(text, &x2) == nil && sameBagAny(x1, x2)
+				var b1, b2 []byte // byte elements: encoding/json writes []byte as one base64 string
+				if !eq && json.Unmarshal(mb, &b1) == nil && json.Unmarshal(text, &b2) == nil {
+					sort.Slice(b1, func(i, j int) bool { return b1[i] < b1[j] })
+					sort.Slice(b2, func(i, j int) bool { return b2[i] < b2[j] })
+					eq = bytes.Equal(b1, b2)
+				}
 			}
 			e["eqmarshal"] = eq
 			y, z := b.mk(), b.mk()
